@@ -26,9 +26,10 @@ import (
 type lbCtx struct {
 	ctx   context.Context
 	route api.Route
+	mc    api.MetadataMatchCriteria
 }
 
-func (c *lbCtx) MetadataMatchCriteria() api.MetadataMatchCriteria { return nil }
+func (c *lbCtx) MetadataMatchCriteria() api.MetadataMatchCriteria { return c.mc }
 func (c *lbCtx) DownstreamConnection() net.Conn                   { return nil }
 func (c *lbCtx) DownstreamHeaders() api.HeaderMap                 { return nil }
 func (c *lbCtx) DownstreamContext() context.Context               { return c.ctx }
@@ -40,7 +41,9 @@ type opRec struct {
 	inv, ret int
 	// lookup
 	host   string
-	setGen int // generation of the host set of the snapshot the lookup used (-1 unknown)
+	setGen int    // generation of the host set of the snapshot the lookup used (-1 unknown)
+	zone   string // subset arm: the lookup asked for hosts with metadata <key>=<zone> ("" = no criteria)
+	key    string // "zone" or "ver"
 	// flip
 	addr string
 	set  bool
@@ -57,7 +60,12 @@ type LB struct {
 	setOf  map[types.HostSet]int
 	health map[string]bool // initial health per address (true = healthy)
 	Policy string
-	Conc   bool
+	// subset arm: subset balancing (selector ["zone"]) on top of the policy
+	Subset   bool
+	Fallback int               // 0 none, 1 any endpoint, 2 default subset {zone: a}
+	zones    map[string]string // address -> zone metadata ("" = none)
+	vers     map[string]string // address -> ver metadata ("" = none)
+	Conc     bool
 	nTasks int
 	done   int
 	Picks  []string // sequential WRR arm
@@ -105,10 +113,30 @@ func RunLB(s *sim.Sim, prop string, uniq string) *LB {
 			}
 		}
 	}
-	c := cluster.NewCluster(v2.Cluster{Name: "lb" + uniq, ClusterType: v2.SIMPLE_CLUSTER, LbType: v2.LbType(w.Policy)})
+	ccfg := v2.Cluster{Name: "lb" + uniq, ClusterType: v2.SIMPLE_CLUSTER, LbType: v2.LbType(w.Policy)}
+	if w.Policy != "LB_MAGLEV" && ch.Chance("params", "subset", 1, 3) {
+		w.Subset = true
+		w.Fallback = ch.Pick("params", "fallback", 3)
+		w.zones, w.vers = map[string]string{}, map[string]string{}
+		ccfg.LBSubSetConfig = v2.LBSubsetConfig{FallBackPolicy: uint8(w.Fallback), DefaultSubset: map[string]string{"zone": "a"}, SubsetSelectors: [][]string{{"zone"}, {"ver"}}}
+		// MOSN has two builders of the subset structure (pre-indexed, the default, and filtering)
+		if ch.Bool("params", "subsetfilterbuild") {
+			cluster.SetSubsetBuildMode(cluster.SubsetFilterBuildMode)
+			w.Stats["subset_builder_filter"]++
+		} else {
+			cluster.SetSubsetBuildMode(cluster.SubsetPreIndexBuildMode)
+			w.Stats["subset_builder_preindex"]++
+		}
+		w.Stats["subset_on_top"]++
+		s.Fault(fmt.Sprintf("w:subset_fallback_%d", w.Fallback))
+	}
+	c := cluster.NewCluster(ccfg)
 	info := c.Snapshot().ClusterInfo()
 	mkSet := func() types.HostSet {
 		n := ch.Pick("work", "nhosts", 6)
+		if w.Subset {
+			n += ch.Pick("work", "morehosts", 3) // subsets that interleave need a few hosts
+		}
 		var hs []types.Host
 		var addrs []string
 		for i := 0; i < n; i++ {
@@ -124,7 +152,28 @@ func RunLB(s *sim.Sim, prop string, uniq string) *LB {
 				continue
 			}
 			wt := uint32(1 + ch.Pick("work", "weight", 4))
-			h := cluster.NewSimpleHost(v2.Host{HostConfig: v2.HostConfig{Address: a, Weight: wt}}, info)
+			hc := v2.Host{HostConfig: v2.HostConfig{Address: a, Weight: wt}}
+			if w.Subset {
+				// the zone is a property of the address (a host keeps its metadata across generations)
+				z, ok := w.zones[a]
+				if !ok {
+					z = pickFrom(ch, "work", "zone", []string{"a", "b", "a", ""})
+					w.zones[a] = z
+				}
+				v, ok := w.vers[a]
+				if !ok {
+					v = pickFrom(ch, "work", "ver", []string{"1", "2", "1", ""})
+					w.vers[a] = v
+				}
+				hc.MetaData = api.Metadata{}
+				if z != "" {
+					hc.MetaData["zone"] = z
+				}
+				if v != "" {
+					hc.MetaData["ver"] = v
+				}
+			}
+			h := cluster.NewSimpleHost(hc, info)
 			hs = append(hs, h)
 			addrs = append(addrs, a)
 		}
@@ -187,8 +236,19 @@ func RunLB(s *sim.Sim, prop string, uniq string) *LB {
 				if hashRoute != nil {
 					_ = variable.Set(ctx, types.VariableOriRemoteAddr, net.Addr(&net.TCPAddr{IP: net.IPv4(10, 7, byte(ch.Pick("work", "srcip", 256)), byte(ch.Pick("work", "srcip2", 256))), Port: 1000 + ch.Pick("work", "srcport", 5000)}))
 				}
+				var mc api.MetadataMatchCriteria
+				if w.Subset {
+					op.key = "zone"
+					op.zone = pickFrom(ch, "work", "wantzone", []string{"a", "b", "c", "", "1", "2"})
+					if op.zone == "1" || op.zone == "2" {
+						op.key = "ver"
+					}
+					if op.zone != "" {
+						mc = router.NewMetadataMatchCriteriaImpl(map[string]string{op.key: op.zone})
+					}
+				}
 				for r := 0; r < retries; r++ {
-					h = snap.LoadBalancer().ChooseHost(&lbCtx{ctx, hashRoute})
+					h = snap.LoadBalancer().ChooseHost(&lbCtx{ctx, hashRoute, mc})
 				}
 				op.ret = w.tick()
 				if g, ok := w.setOf[snap.HostSet()]; ok {
@@ -344,6 +404,54 @@ func (w *LB) check() {
 			s.Violate("C05", "stale_snapshot", "%s lookup [%d,%d] used host-set generation %d, current generations %v", w.Policy, op.inv, op.ret, op.setGen, cur)
 		}
 		set := w.sets[op.setGen]
+		if w.Subset && op.zone != "" {
+			// subset on top: the hosts of the snapshot's set that carry the asked zone (M); if there is none,
+			// the fallback set (F): none / every host / the hosts of the default subset zone=a
+			var m, f []string
+			for _, a := range set {
+				if op.key == "zone" && w.zones[a] == op.zone || op.key == "ver" && w.vers[a] == op.zone {
+					m = append(m, a)
+				}
+				if w.Fallback == 1 || w.Fallback == 2 && w.zones[a] == "a" {
+					f = append(f, a)
+				}
+			}
+			w.Stats["subset_lookups"]++
+			if op.host != "" {
+				in := false
+				for _, a := range append(append([]string(nil), m...), f...) {
+					if a == op.host {
+						in = true
+					}
+				}
+				if !in {
+					inSet := false
+					for _, a := range set {
+						inSet = inSet || a == op.host
+					}
+					if inSet {
+						s.Violate("C05", "subset_host_not_eligible", "%s with subset selectors [zone] [ver], fallback %d: a lookup for %s=%s returned %s (zone %q ver %q), which is neither in that subset %v nor in the fallback set %v of host set %v", w.Policy, w.Fallback, op.key, op.zone, op.host, w.zones[op.host], w.vers[op.host], m, f, set)
+						continue
+					}
+				}
+			}
+			// a host is owed when the asked subset has a host that was healthy throughout, or — the subset
+			// being empty — the fallback set has one
+			owed := m
+			if len(m) == 0 {
+				owed = f
+				w.Stats["subset_fallback_lookups"]++
+			}
+			if op.host == "" {
+				for _, a := range owed {
+					if w.healthDuring(a, op.inv, op.ret) == 1 {
+						s.Violate("C05", "no_host_despite_healthy:subset", "%s with subset selectors [zone] [ver], fallback %d: a lookup for %s=%s returned no host although %s (zone %q ver %q) was healthy during the whole lookup [%d,%d] (subset %v fallback set %v)", w.Policy, w.Fallback, op.key, op.zone, a, w.zones[a], w.vers[a], op.inv, op.ret, m, f)
+						break
+					}
+				}
+				continue
+			}
+		}
 		if op.host != "" {
 			in := false
 			for _, a := range set {
